@@ -314,9 +314,9 @@ def c12():
         ob("c12::cut_through_2_2", "t", 6, "same", "2 inputs + 2 outputs", est=700, cap_s=3600, unwindset={"memcmp.0": 40}, mem_est_gb=14),
         ob("c12::cut_through_err_iff_duplicate_2_2", "qt", 6, "Err(CutThrough) iff a duplicate survives", "2 + 2", est=500, cap_s=750, unwindset={"memcmp.0": 40}, mem_est_gb=13),
     ] + [
-        ob("c12::body_read_time_rules", "qt", 6, "TransactionBody::validate_read (run on every decoded transaction / block body) accepts a body exactly when " + what + "; each refusal carries its own error",
-           "shape " + shape + "; symbolic commitments (one byte each), kernel variants (plain / NRD), excesses, NRD flag; hashing under the deterministic mixer E4a", est=300, env={"VH_SHAPE": k}, tag="_s%d" % k,
-           loops={"memcmp": 70, "zeroize": 36, "memcpy": 120, "insertion_sort": 4}, mem_est_gb=10)
+        ob("c12::body_read_time_rules", "qt" if k == 0 else "t", 6, "TransactionBody::validate_read (run on every decoded transaction / block body) accepts a body exactly when " + what + "; each refusal carries its own error",
+           "shape " + shape + "; symbolic commitments (one byte each), kernel variants (plain / NRD), excesses, NRD flag; hashing under the deterministic mixer E4a", est=150 if k == 0 else 600, env={"VH_SHAPE": k}, tag="_s%d" % k,
+           loops={"memcmp": 70, "zeroize": 36, "memcpy": 120, "insertion_sort": 4}, mem_est_gb=5 if k == 0 else 10)
         for k, shape, what in [(0, "1 input / 1 output / 1 kernel", "the input does not spend the body's own output (no cut-through left inside a body)"),
                                (1, "0 inputs / 0 outputs / 2 kernels", "the kernels ascend strictly by hash and, with NRD on, two NRD kernels do not share an excess")]
     ] + [
@@ -328,7 +328,7 @@ def c12():
     ]
     return {
         "obligations": obs,
-        "stubs": BASE_STUBS + ["E15 core::slice::sort::unstable::sort -> insertion sort with the same comparator"],
+        "stubs": BASE_STUBS + ["E15 core::slice::sort::unstable::sort and alloc::slice::stable_sort -> (stable) insertion sort with the same comparator"],
         "explanation": "Bounded proof over transaction::cut_through instantiated with a harness element type (commitment newtype ordered by its varying byte).",
         "bounds": "slice shapes concrete per query; commitment contents symbolic in one byte (256 values, duplicates and matches included)",
         "outside": "aggregate/deaggregate/hydrate_from over the hash-ordered grin types (measured not to finish), more than 3+3 elements",
